@@ -38,9 +38,10 @@ RULES = {
     "R11": "constructor options are live: every attribute the constructor binds from a parameter is read by a method of the class",
     "R13": "the weight of a triple is the sum of exactly its three pairwise distances: log w = distance_factor * log(D[i,j] + D[j,k] + D[i,k]), nothing added inside the logarithm (a triple of identical samples has weight 0)",
     "R14": "the kernel's returned expression, in polynomial normal form over role atoms, is the documented estimator (alpha = sum of the pairwise variance products, nothing added); a numeric tolerance in it is reported",
+    "R15": "purity of the scoring code: no function of scoring.gaussian_dbal writes into an array it did not allocate (a plate's selection vector, the caller's padded arrays): in-place operators, subscript stores, out=, nan_to_num(copy=False)",
     "R12": "the distance matrix handed to the kernel is the recorded one: to_dense writes every stored value at its own (row, col) and its mirror, refusing incomplete matrices (C07.R3 run here)",
 }
-MIN = {"R1": 1, "R2": 7, "R3": 2, "R4": 2, "R5": 3, "R6": 3, "R7": 3, "R8": 5, "R9": 1, "R10": 3, "R11": 1, "R12": 4, "R13": 1, "R14": 1}
+MIN = {"R15": 6, "R1": 1, "R2": 7, "R3": 2, "R4": 2, "R5": 3, "R6": 3, "R7": 3, "R8": 5, "R9": 1, "R10": 3, "R11": 1, "R12": 4, "R13": 1, "R14": 1}
 TRUSTED = ["distance matrix is symmetric (C07.R3)", "scipy logsumexp(axis=1) reduces the triple axis only", "numpy broadcasting"]
 TECHNIQUE = "polynomial normal form with permutation (S3) symmetry lint; def-use checks of the padding protocol; axis-role lint"
 LEVEL_TEXT = ("Invariance under relabelling of the posterior samples, independence from co-scored plates (axis isolation + "
@@ -747,7 +748,51 @@ def r14(ctx):
     raise AnalysisError(f"{f.site()}: the kernel's normal form is not the documented estimator's and the difference is not one this rule can name")
 
 
-RULE_FUNCS = [r1, r2, r3, r4, r5, r6, r7, r8, r_derived, r_holder, r_options, r_br12, r13, r14]
+def r15(ctx):
+    """`a plate's score depends on that plate alone`, over calls and over the plates of one call: the scoring code reads its inputs - the plates'
+    selection vectors, the caller's padded arrays, the distance matrix - and must not write into them.  An in-place operator on a name
+    that may still be the first plate's own vector (`mask |= plate.selection_vector`), or `nan_to_num(variances, copy=False)` on the caller's
+    padding, changes what a later plate / a later call is scored on.  Freshness analysis (engine/fresh.py, the rule C14.R2 runs on the views)
+    over every function of the scoring module and every method of the scorer."""
+    from . import C14
+    R = ctx.R
+    funcs = [f for q, f in sorted(R.funcs.items()) if f.mod == "batchie.scoring.gaussian_dbal" and f.name != "__init__"]
+    ctx.need(len(funcs) >= 6, "scoring.gaussian_dbal: fewer functions than the reviewed tree has")
+    from engine.fresh import Freshness, FRESH, BORROWED, UNKNOWN
+    SCALARS = {"int", "float", "bool", "str"}
+    for f in funcs:
+        ctx.functions.add(f.qname)
+        fr = Freshness(f.node)
+        ann = {a.arg: U(a.annotation) for a in f.node.args.posonlyargs + f.node.args.args + f.node.args.kwonlyargs if a.annotation is not None}
+        counted = {U(a) for c in calls(f.node) if call_name(c) in ("range", "comb", "math.comb") for a in c.args if isinstance(a, ast.Name)}
+        bars = {n.targets[0].id for n in walk_own(f.node) if isinstance(n, ast.Assign) and len(n.targets) == 1 and isinstance(n.targets[0], ast.Name)
+                and isinstance(n.value, ast.Call) and call_name(n.value) in ("tqdm", "tqdm.tqdm", "trange", "tqdm.trange")}
+        bad, unk, n_m = [], [], 0
+        for node, tgt, kind in fr.mutations():
+            n_m += 1
+            root = tgt
+            while isinstance(root, (ast.Subscript, ast.Attribute)):
+                root = root.value
+            if kind == "augmented-assignment" and isinstance(tgt, ast.Name) and (ann.get(tgt.id) in SCALARS or tgt.id in counted):
+                continue          # a number (annotated, or used as a count): `n -= 1` rebinds the local, nothing is shared
+            if isinstance(root, ast.Name) and root.id in bars and kind.startswith("."):
+                continue          # the progress bar made here
+            v = fr.value(tgt)
+            if kind == "augmented-assignment" and isinstance(tgt, ast.Name) and v[0] == FRESH:
+                continue
+            if v[0] == BORROWED:
+                bad.append(f"{kind} on `{U(tgt)}` which aliases `{v[1]}`")
+            elif v[0] == UNKNOWN and not (kind == "augmented-assignment" and isinstance(tgt, ast.Name)):
+                unk.append(f"{kind} on `{U(tgt)}`")
+        if bad:
+            ctx.bad("R15", f"{f.site()}::mutations", "writes into an array it did not allocate: " + "; ".join(bad))
+        elif unk:
+            raise AnalysisError(f"{f.site()}: cannot classify the target of {unk} as fresh or borrowed")
+        else:
+            ctx.ok("R15", f"{f.site()}::mutations", f"{n_m} in-place write(s), none into a borrowed array")
+
+
+RULE_FUNCS = [r1, r2, r3, r4, r5, r6, r7, r8, r_derived, r_holder, r_options, r_br12, r13, r14, r15]
 
 
 def run(ctx):
